@@ -4,3 +4,4 @@ import BromeliaVerif.Properties.C18
 import BromeliaVerif.Properties.C20
 import BromeliaVerif.Properties.C01
 import BromeliaVerif.Properties.C02
+import BromeliaVerif.Properties.C03
